@@ -191,7 +191,7 @@ def docs(draw, allow_unencoded=True, allow_nonobject_meta=False,
             'value': value,
             'style': draw(st.sampled_from(['canonical', 'canonical',
                                            'compact', 'indent2', 'unsorted',
-                                           'nonascii'])),
+                                           'nonascii', 'leading-space'])),
             'kind': draw(st.sampled_from(['unix', 'unix', 'unix', 'dos'])),
             'declare_le': draw(st.integers(0, 4)) == 0,
             'format': draw(st.sampled_from([None, 'json', 'json'])),
@@ -295,6 +295,10 @@ def json_text(value, style):
 
     if style == 'indent2':
         return json.dumps(value, indent=2, sort_keys=True)
+
+    if style == 'leading-space':
+        # JSON text may begin with white space
+        return ' \t\n ' + json.dumps(value, indent=1, sort_keys=True)
 
     if style == 'unsorted':
         return json.dumps(value, indent=4)
